@@ -42,7 +42,7 @@ STAT_BITS = {'S_IRUSR': 0o400, 'S_IWUSR': 0o200, 'S_IXUSR': 0o100, 'S_IRGRP': 0o
 # recognised by the skeleton/gate translators) or on this list of callees known not to touch the output tree.  Anything
 # else (link, symlink, read_text, fchmod, sendfile, tempfile, a new helper, ...) makes the translator fail closed.
 HARMLESS = {'Path', 'PermissionError', 'IsADirectoryError', 'ValueError', '_generate_with_line_buffer', '_reset_line_pp', 'append',
-            'debug', 'info', 'warning', 'endswith', 'exists', 'is_dir', 'is_symlink', 'stat', 'file_pp', 'line_pp',
+            'debug', 'info', 'warning', 'endswith', 'exists', 'is_dir', 'is_file', 'is_symlink', 'stat', 'file_pp', 'line_pp',
             'filter_type_to_template', 'format', 'generate', 'get_support_module', 'get_support_output_folder',
             'get_target_language', 'get_template', 'get_templates', 'isinstance', 'len', 'provider', 'reset', 'str', 'type',
             'update_nunavut_globals', 'utcnow', 'with_suffix', 'write'}
@@ -120,10 +120,13 @@ class FsTr:
             return out
         if (isinstance(e, ast.Call) and isinstance(e.func, ast.Attribute) and e.func.attr == 'exists'
                 and _is_name(e.func.value, self.path) and not e.args and not e.keywords):
-            return '(fs_exists %s (resolve e %s))' % (s, self.path)
+            return '(fs_exists_at e %s (resolve e %s))' % (s, self.path)
         if (isinstance(e, ast.Call) and isinstance(e.func, ast.Attribute) and e.func.attr == 'is_symlink'
                 and _is_name(e.func.value, self.path) and not e.args and not e.keywords):
             return '(is_symlink e %s)' % self.path          # lstat: does not follow
+        if (isinstance(e, ast.Call) and isinstance(e.func, ast.Attribute) and e.func.attr == 'is_file'
+                and _is_name(e.func.value, self.path) and not e.args and not e.keywords):
+            return '(fs_is_file e %s (resolve e %s))' % (s, self.path)
         if (isinstance(e, ast.Call) and isinstance(e.func, ast.Attribute) and e.func.attr == 'is_dir'
                 and _is_name(e.func.value, self.path) and not e.args and not e.keywords):
             return '(fs_is_dir %s (resolve e %s))' % (s, self.path)
@@ -511,6 +514,22 @@ def tr_support_selection(tree: ast.Module) -> str:
             '  (if negb omit then ser else []) ++ typ.')
 
 
+def fix_state_flags() -> str:
+    """which of C12's findings are recorded as FIXED (known_findings.d/C12.json): for those the regenerated gate is OBLIGED
+    to refuse the corresponding entries (Properties/C12.v *_guard): a revert of the fix then breaks the build"""
+    import json
+    try:
+        doc = json.load(open(os.path.join(gen.VERIF, 'known_findings.d', 'C12.json')))
+    except OSError:
+        doc = {'findings': []}
+    st = {e['id']: e.get('status') for e in doc['findings']}
+    out = []
+    for fid, name in (('F-COPY-INTO-DIR', 'fixed_directory_refusal'), ('F-SYMLINK-TARGET', 'fixed_symlink_refusal'),
+                      ('F-NONREGULAR-TARGET', 'fixed_nonregular_refusal')):
+        out.append('Definition %s : bool := %s.   (* %s: %s *)' % (name, 'true' if st.get(fid) == 'fixed' else 'false', fid, st.get(fid)))
+    return '\n'.join(out)
+
+
 HEAD = (gen.HEADER % ', '.join([SRC_J, SRC_P, SRC_R])
         + 'From Coq Require Import NArith List Bool.\nFrom Verif Require Import RegenBase.\nImport ListNotations.\nOpen Scope N_scope.\n\n')
 
@@ -543,6 +562,7 @@ def gen_regen() -> typing.Tuple[bool, str]:
         parts.append(tr_should_generate_support(rr))
         parts.append(tr_support_selection(jj))
         parts.append('Definition cli_pp_list : list (bool * ppclass) :=\n  %s.' % cli_pp_list(rr))
+        parts.append(fix_state_flags())
     except (Unsupported, SyntaxError, OSError, AttributeError, IndexError) as ex:
         gen.write_if_changed(OUT, HEAD + '(* translator failed closed: %s *)\n' % str(ex).replace('*)', '* )').replace('(*', '( *'))
         return False, 'C12 translator failed closed: %s' % ex
